@@ -234,6 +234,16 @@ func SameOutcome(a, b Outcome, loose bool) string {
 	return ""
 }
 
+// SameOutcomeMF is SameOutcome for cases in which several sub-expressions
+// fail at once (multiFault): which fault is reported may then vary from call
+// to call, so two failures agree whatever their categories.
+func SameOutcomeMF(a, b Outcome, loose, multiFault bool) string {
+	if multiFault && a.Panic == "" && b.Panic == "" && a.Failed && b.Failed {
+		return ""
+	}
+	return SameOutcome(a, b, loose)
+}
+
 func markUnordered(v jv.Val) jv.Val {
 	switch v.K {
 	case jv.Arr:
